@@ -6,12 +6,20 @@
 package c08
 
 import (
+	"bytes"
 	"encoding/binary"
 	"fmt"
+	"os"
+	"strings"
 	"time"
 
+	"mosn.io/api"
 	"mosn.io/mosn/pkg/log"
+	mhttp2 "mosn.io/mosn/pkg/module/http2"
+	"mosn.io/mosn/pkg/module/http2/hpack"
+	phttp2 "mosn.io/mosn/pkg/protocol/http2"
 	"mosn.io/mosn/pkg/protocol/xprotocol"
+	"mosn.io/pkg/buffer"
 	"verif/harness/framegen"
 	"verif/harness/hx"
 )
@@ -186,6 +194,8 @@ func Run(c *hx.Ctx) {
 		binary.BigEndian.PutUint16(nb[f.Fields[1].Off:], uint16(len(blk)))
 		dec(f.Proto, nb, "bolt-bad-block")
 	}
+	// HTTP/2 server-side frame extraction (incl. payload parsers and HPACK) on malformed frames
+	h2Malformed(c)
 	// the header block decoder alone
 	seenKv := map[string]bool{}
 	kv := func(b []byte, how string) {
@@ -218,6 +228,142 @@ func Run(c *hx.Ctx) {
 			}
 		}
 		kv(b, "random")
+	}
+}
+
+// h2Case: one real server-side Decode (preface already consumed) on exactly these bytes.
+func h2Case(c *hx.Ctx, data []byte, how string) {
+	out := ""
+	var err error
+	var panicked bool
+	drained := 0
+	var frame interface{}
+	if withTimeout(func() {
+		sc := mhttp2.NewServerConn(&nopConn{})
+		p := phttp2.ServerProto(sc)
+		ctx := framegen.Ctx()
+		pre := buffer.NewIoBufferBytes([]byte(mhttp2.ClientPreface))
+		p.Decode(ctx, pre) // consumes the preface, answers ErrAGAIN
+		buf := buffer.NewIoBufferBytes(append([]byte(nil), data...))
+		before := buf.Len()
+		_, panicked = hx.Safe(func() { frame, err = p.Decode(ctx, buf) })
+		drained = before - buf.Len()
+	}) {
+		out = "hang"
+	} else if panicked {
+		out = "panic"
+	} else if err == mhttp2.ErrAGAIN {
+		out = fmt.Sprintf("needmore:%d", drained)
+	} else if err != nil {
+		out = fmt.Sprintf("error:%d", drained)
+	} else {
+		_ = frame
+		out = fmt.Sprintf("frame:%d", drained)
+	}
+	c.Emit("C08", "h2dec "+hx.Hex(data), out)
+	c.Count("h2dec." + how)
+	c.Count("h2dec.outcome." + out[:4])
+	if out == "hang" { // the spinning goroutine cannot be stopped
+		c.FlushNow()
+		os.Exit(0)
+	}
+}
+
+type nopConn struct{ api.Connection }
+
+func (nopConn) Write(...buffer.IoBuffer) error                           { return nil }
+func (nopConn) Close(api.ConnectionCloseType, api.ConnectionEvent) error { return nil }
+
+// h2Frames writes a few valid frames (MOSN's own Framer + HPACK encoder) and returns them separately.
+func h2Frames(r *hx.Rng) [][]byte {
+	var w bytes.Buffer
+	fr := mhttp2.NewFramer(&w, nil)
+	var hb bytes.Buffer
+	enc := hpack.NewEncoder(&hb)
+	var out [][]byte
+	take := func() { out = append(out, append([]byte(nil), w.Bytes()...)); w.Reset() }
+	fr.WriteSettings(mhttp2.Setting{ID: mhttp2.SettingInitialWindowSize, Val: 65535})
+	take()
+	fr.WriteWindowUpdate(0, uint32(1+r.Intn(1000)))
+	take()
+	var d [8]byte
+	fr.WritePing(false, d)
+	take()
+	enc.WriteField(hpack.HeaderField{Name: ":method", Value: "POST"})
+	enc.WriteField(hpack.HeaderField{Name: ":scheme", Value: "http"})
+	enc.WriteField(hpack.HeaderField{Name: ":authority", Value: "a.test"})
+	enc.WriteField(hpack.HeaderField{Name: ":path", Value: "/p" + strings.Repeat("x", r.Intn(20))})
+	enc.WriteField(hpack.HeaderField{Name: "x-key", Value: strings.Repeat("v", r.Intn(30))})
+	block := append([]byte(nil), hb.Bytes()...)
+	parts := 1 + r.Intn(3)
+	cut := []int{}
+	for j := 1; j < parts; j++ {
+		cut = append(cut, j*len(block)/parts)
+	}
+	cut = append(cut, len(block))
+	p := mhttp2.HeadersFrameParam{StreamID: 1, BlockFragment: block[:cut[0]], EndHeaders: parts == 1, PadLength: uint8(r.Intn(4))}
+	if r.Bool() {
+		p.Priority = mhttp2.PriorityParam{Weight: 7}
+	}
+	fr.WriteHeaders(p)
+	for j := 1; j < parts; j++ {
+		fr.WriteContinuation(1, j == parts-1, block[cut[j-1]:cut[j]])
+	}
+	take()
+	fr.WriteData(1, true, r.Bytes(r.Intn(40)))
+	take()
+	fr.WriteRSTStream(1, mhttp2.ErrCodeCancel)
+	take()
+	fr.WriteGoAway(1, mhttp2.ErrCodeNo, []byte("bye"))
+	take()
+	fr.WritePriority(3, mhttp2.PriorityParam{Weight: 1})
+	take()
+	return out
+}
+
+func h2Malformed(c *hx.Ctx) {
+	seen := map[string]bool{}
+	do := func(b []byte, how string) {
+		if seen[string(b)] {
+			return
+		}
+		seen[string(b)] = true
+		h2Case(c, b, how)
+	}
+	for i := 0; i < c.N(25, 250); i++ {
+		for _, f := range h2Frames(c.Rng) {
+			do(f, "valid")
+			ln := uint64(f[0])<<16 | uint64(f[1])<<8 | uint64(f[2])
+			for _, v := range []uint64{0, 1, 2, 3, 4, 5, 8, ln + 1, ln + 9, ln - 1, 0xffffff, 1 << 20, 1<<20 + 1, 16384, 16385} {
+				m := append([]byte(nil), f...)
+				m[0], m[1], m[2] = byte(v>>16), byte(v>>8), byte(v)
+				do(m, "length")
+				do(append(m, c.Rng.Bytes(1+c.Rng.Intn(20))...), "length+spare")
+			}
+			for k := 0; k < len(f); k++ {
+				do(f[:k], "truncated")
+			}
+			for j := 0; j < 6; j++ { // type / flags / stream id / payload byte corruption
+				m := append([]byte(nil), f...)
+				pos := 3 + c.Rng.Intn(len(m)-3)
+				if j < 3 {
+					pos = 3 + j
+				}
+				m[pos] ^= byte(1 + c.Rng.Intn(255))
+				do(m, "byteflip")
+				do(append(m, c.Rng.Bytes(c.Rng.Intn(12))...), "byteflip+spare")
+			}
+		}
+	}
+	for i := 0; i < c.N(400, 8000); i++ {
+		b := c.Rng.Bytes(9 + c.Rng.Intn(50))
+		b[0], b[1] = 0, 0
+		b[2] = byte(c.Rng.Intn(len(b)))
+		b[3] = byte(c.Rng.Intn(11))
+		if c.Rng.Chance(50) {
+			b[4] &= 0x2d
+		}
+		do(b, "random")
 	}
 }
 
